@@ -154,6 +154,18 @@ def conditions(p: Program, node, fi: FuncInfo) -> List[Tuple[ast.expr, bool]]:
     return conds
 
 
+def enclosing_conditions(p: Program, node, fi: FuncInfo) -> List[Tuple[ast.expr, bool]]:
+    """Like conditions(), without the conditions that only stem from earlier early-exit guards
+    (`if c: return` before the statement): the tests of the If/While statements that lexically enclose the node."""
+    out = []
+    for test, pol in conditions(p, node, fi):
+        par = p.parent_of(test)
+        if isinstance(par, (ast.If, ast.While)) and par.test is test and not within(p, node, par):
+            continue
+        out.append((test, pol))
+    return out
+
+
 def dominates(p: Program, a, b, fi: FuncInfo) -> bool:
     """Statement containing `a` lexically dominates node `b`: every path reaching b has started a before.
 
